@@ -95,6 +95,14 @@ class ImageFileRoundTrip:
                     K.ensure("values", E.bconst(bool(torch.equal(back.tensor().to(torch.float64), data.to(torch.float64)))), text=Q18 + " [voxel values exactly]")
                     K.ensure("dtype", E.bconst(back.dtype == dt), text=Q18 + " [stored data type]", kind="helper")
                 same_grid(K, "grid", back.grid(), g, Q18)
+                # the image just read can be written back to the same path (e.g. after changing its grid) and read again
+                if tuple(back.shape) == tuple(im.shape):
+                    w2 = K.call(back.write, path, compress=compress)
+                    if K.ensure_returns(w2, text=Q18 + f" [re-write {ext} to the path it was read from]"):
+                        again = K.call(Image.read, path)
+                        if K.ensure_returns(again, text=Q18 + f" [read {ext} after re-write]"):
+                            K.ensure("values-after-rewrite", E.bconst(tuple(again.shape) == tuple(im.shape) and bool(torch.equal(again.tensor().to(torch.float64), data.to(torch.float64)))),
+                                     text=Q18 + " [voxel values exactly, after writing the image that was read back to the same path]")
             # interoperability: library-written file read by SimpleITK
             try:
                 ref = sitk.ReadImage(path) if written else None
